@@ -32,6 +32,13 @@ func init() {
 			lons := []float64{-180, -179.9999999999, -90.5, -1e-9, 0, 1e-9, 45.123456789, 139.7, 179.9999999999, 180}
 			lats := []float64{-ref.LatLimit, -85.05, -60.25, -1e-9, 0, 1e-9, 35.6, 66.5, 85.05, ref.LatLimit}
 			alts := []float64{0, -1e-300, 12.345, -33554432, 33554431.999, 1e300}
+			// digit-rich coordinates (more than 10 significant decimals, one to three integer digits): rounding or
+			// truncating the result to a fixed number of digits shows here and not on round numbers
+			for k := 1; k <= 12; k++ {
+				lons = append(lons, -180+float64(k)*27.692307692307693+1.23456789012e-4)
+				lats = append(lats, -85+float64(k)*13.076923076923077+7.7654321098e-5)
+			}
+			lons = append(lons, 139.7530980004, -122.4194155006, 100.0000000003, -9.9999999997)
 			if tier != "thorough" {
 				// a coarse sweep on top of the edges: every 15 degrees of longitude and 10 of latitude, one ulp either side
 				for v := -165.0; v < 180; v += 15 {
@@ -60,7 +67,7 @@ func init() {
 			return []engine.Phase{
 				longProjectionListPhase(tier),
 				{Name: "mercator-3857", ShardDepth: 2, Bounds: engine.Bounds{InputDev: -1},
-					Rule: "full product lon x lat x alt alphabets (10 x 10 x 6 edge values; quick adds a 15 x 10 degree sweep with one-ulp neighbours; thorough adds a 2.5 x 1.25 degree sweep with one-ulp neighbours, the limits in steps of 1e-10 degrees and 8 more altitudes): forward = closed-form spherical Mercator to 1e-6 m, altitude bit-for-bit, back-conversion within 2e-10 degrees (lon mod 360); a failure is classified [only-with-nonzero-altitude] when the same point with altitude 0 passes; non-trivial = distinct points on a domain edge",
+					Rule: "full product lon x lat x alt alphabets (10 x 10 x 6 edge values and 16 x 12 digit-rich coordinates with more than 10 significant decimals; quick adds a 15 x 10 degree sweep with one-ulp neighbours; thorough adds a 2.5 x 1.25 degree sweep with one-ulp neighbours, the limits in steps of 1e-10 degrees and 8 more altitudes): forward = closed-form spherical Mercator to 1e-6 m, altitude bit-for-bit, back-conversion within 2e-10 degrees (lon mod 360); a failure is classified [only-with-nonzero-altitude] when the same point with altitude 0 passes; non-trivial = distinct points on a domain edge",
 					Body: func(c *engine.Ctx) {
 						lon := lons[c.In("lon", len(lons))]
 						lat := lats[c.In("lat", len(lats))]
